@@ -410,7 +410,7 @@ func c12Helpers(c *Ctx) {
 		return
 	}
 	frame := func(fin bool, rsv int64) fold.Struct {
-		h := headerVal(fin, rsv, 1, false, nil, fold.Int{Lo: 0, Hi: 1 << 40, Name: "Length"})
+		h := headerVal(fin, rsv, 1, false, nil, fold.Int{Lo: 0, Hi: bigLen(), Name: "Length"})
 		return fold.Struct{F: []fold.Val{h, fold.SymSeq{Name: "payload", Len: fold.Int{Lo: 0, Hi: 1 << 30, Name: "len(payload)"}}}}
 	}
 	for _, name := range []string{"CompressFrameBuffer", "DecompressFrameBuffer"} {
